@@ -15,6 +15,7 @@ RULE = ("call sequences over {open_rx_pipe(0|1|2,a), close_rx_pipe(0|1), open_tx
         "last call is followed by real probe transmissions (a third radio sending to the "
         "user's address and to the TX address; send() to a listening peer). Non-trivial: at "
         "least one role change was observed; distinct = distinct call histories.")
+RULE += (" Later rounds added: neutral calls (get_auto_ack, power) mixed into the random walks.")
 REQUIRED = {"rx_entry_pipe0": 300, "probe_user_addr": 100, "probe_tx_addr": 50,
             "tx_pipe0_ack_addr": 200, "send_probe": 100, "ce_at_return": 2000,
             "prim_rx_flip_ce": 500}
